@@ -222,10 +222,12 @@ def upload_buffer_oracle(obs):
             if e['nbytes'] > unit:
                 viol.append(V(f'{e["label"]}: a single read of {e["nbytes"]} bytes from the user stream exceeds '
                               f'max(chunksize, threshold)={unit}', sym='oversized-read'))
-            if e['stage'] == 'submission':
-                cur += e['nbytes']
-                if cur > stats['max_buffered_upload_bytes']:
-                    stats['max_buffered_upload_bytes'] = cur
+            # (whichever thread does the reading: what was read from the stream sits in memory until its request has returned)
+            cur += e['nbytes']
+            if cur > stats['max_buffered_upload_bytes']:
+                stats['max_buffered_upload_bytes'] = cur
+            if e['stage'] != 'submission':
+                stats['stream_reads_outside_submission'] = stats.get('stream_reads_outside_submission', 0) + 1
         elif e['kind'] == 'api.begin' and e.get('label') in stream_labels and e['op'] == 'UploadPart':
             pass
         elif e['kind'] == 'api.ret' and e.get('label') in stream_labels and e['op'] in ('PutObject', 'UploadPart'):
